@@ -131,6 +131,19 @@ def main(argv):
                         and not (f["kind"] == "array_field" and f["size"] is not None)):
                     run.violation("impl", "%s.%s is classified Dynamic although nothing delimits it" % (dj["id"], f.get("id", f["kind"])),
                                   {"pdl": text, "decl": dj["id"], "field": f, "signature": {"class": "dynamic-but-undelimited"}})
+            # the class of a declaration is the class of the sum of its fields (padded size where there is one): Unknown as soon
+            # as one field is Unknown — "a part is of unknown size only when nothing delimits it", and nothing delimits a
+            # declaration that contains such a part —, else Dynamic as soon as one is Dynamic.  Independent of the model.
+            def cls(x):
+                return x if isinstance(x, str) else "static"
+            # (decl_size leaves the payload / body out: it is accounted for in payload_size)
+            effs = [cls(fs.get("padded_size") if fs.get("padded_size") is not None else fs["field_size"])
+                    for f0, fs in zip(dj.get("fields", []), rs["fields"]) if f0.get("kind") not in ("payload_field", "body_field")]
+            want = "unknown" if "unknown" in effs else ("dynamic" if "dynamic" in effs else "static")
+            if cls(rs["decl_size"]) != want:
+                run.violation("impl", "%s: the fields are classified %s, their sum (decl_size) %s instead of %s"
+                              % (dj["id"], effs, cls(rs["decl_size"]), want),
+                              {"pdl": text, "decl": dj["id"], "real": rs, "signature": {"class": "decl-class", "got": cls(rs["decl_size"]), "want": want}})
             # constant sizes against reference encodings
             if isinstance(rs["total_size"], dict):
                 nbits = rs["total_size"]["static"]
